@@ -1617,6 +1617,22 @@ def canonical_models(profile):
         ("QDense", {"units": 2, "use_bias": True},
          {"kernel_quantizer": po2, "bias_quantizer": None, "activation": None}),
         ("QBatchNormalization", {"scale": False, "trainable": False}, {})], "vec", 16))
+    # frozen folded layers: the constructor's trainable flag is consumed by the
+    # folded layer and handed to its inner batch normalisation only, so the
+    # round trip has to carry the batch-norm's flag (weight order depends on it)
+    ms.append(_desc([5, 4, 1], [
+        ("QConv2DBatchnorm", {"filters": 2, "kernel_size": [2, 2], "strides": [1, 1],
+                              "padding": "valid", "dilation_rate": [1, 1], "use_bias": True,
+                              "folding_mode": "ema_stats_folding", "trainable": False},
+         {"kernel_quantizer": fx, "bias_quantizer": fx, "activation": None}),
+        ("QDepthwiseConv2DBatchnorm", {"kernel_size": [2, 2], "strides": [1, 1],
+                                       "padding": "same", "depth_multiplier": 1,
+                                       "use_bias": True, "dilation_rate": [1, 1],
+                                       "folding_mode": "batch_stats_folding",
+                                       "trainable": False},
+         {"depthwise_quantizer": _qb(6, 2, 1.0), "bias_quantizer": fx,
+          "activation": None}),
+        fl], "image", 25))
     ms.append(_desc([3, 2], [
         ("QBidirectional", {"merge_mode": "sum"},
          {"__inner__": {"cls": "QSimpleRNN", "in": ["in"],
